@@ -66,9 +66,9 @@ func DedupPermission(t *Truth) *Report {
 	rep := newReport()
 	r := t.R
 	all := r.Attempts()
-	for _, succ := range Successes(all, func(a *sim.Attempt) string { return a.Key() }) {
+	for _, succ := range Successes(all, t.SeriesKey) {
 		for i, cur := range succ {
-			ep, n := t.NodeOfAttempt(cur)
+			ep, n := t.NodeOfAttemptLoose(cur)
 			if ep == nil || n == nil {
 				rep.Counters["attempts_without_reference_node"]++
 				continue
@@ -101,7 +101,7 @@ func DedupPermission(t *Truth) *Report {
 			// across a config reload the statement does not say which repeat_interval governs: the
 			// smaller of the two is admitted
 			repeat := n.RepeatInterval
-			if pe, pn := t.NodeOfAttempt(prev); pe != nil && pn != nil && pn.RepeatInterval < repeat {
+			if pe, pn := t.NodeOfAttemptLoose(prev); pe != nil && pn != nil && pn.RepeatInterval < repeat {
 				repeat = pn.RepeatInterval
 			}
 			if start.Sub(prev.End) > repeat {
@@ -121,7 +121,7 @@ func DedupPermission(t *Truth) *Report {
 			}
 			members := groupMembers(t, ep, n, cur.GroupLabels)
 			// the previous notification may belong to an earlier epoch with other routing
-			if pe, pn := t.NodeOfAttempt(prev); pe != nil && pn != nil && pe != ep {
+			if pe, pn := t.NodeOfAttemptLoose(prev); pe != nil && pn != nil && pe != ep {
 				for _, k := range groupMembers(t, pe, pn, prev.GroupLabels) {
 					if !contains(members, k) {
 						members = append(members, k)
